@@ -145,6 +145,31 @@ func (r *c12run) runCase(c content, mode int, req [][]byte, reqName string, foll
 			return
 		}
 	}
+	// the same request exported AGAIN after the follow-ups, from the source (which has served an export before
+	// and was changed since) and from the partial trie (where it can serve it): each export deserialises to
+	// the root and weight both tries now have
+	if len(follow) > 0 {
+		for who, tr := range []*wmpt.WeightedMerkleTrie{src, part} {
+			name := []string{"source", "partial trie"}[who]
+			ex2, err := tr.GetPath(req)
+			if err != nil {
+				if who == 0 {
+					r.violate("re-export", fmt.Sprintf("%s: the same request exported again from the source after the follow-ups: GetPath returned %v", describe(), err), replay)
+					return
+				}
+				continue // a partial trie need not be able to serve it (stubs on the way): not judged
+			}
+			p2 := wmpt.New(nil, nil)
+			if err := p2.Deserialize(ex2); err != nil {
+				r.violate("re-export-des:"+name, fmt.Sprintf("%s: the same request exported again from the %s after the follow-ups does not deserialise: %v", describe(), name, err), replay)
+				return
+			}
+			if !bytes.Equal(p2.Root(), m.Root()) || p2.Weight() != m.Total() {
+				r.violate("re-export-root:"+name, fmt.Sprintf("%s: the same request exported again from the %s after the follow-ups gives a partial trie with root %x weight %d; source and model have root %x weight %d", describe(), name, p2.Root(), p2.Weight(), m.Root(), m.Total()), replay)
+				return
+			}
+		}
+	}
 	r.distinct.Store(fmt.Sprintf("%x", export), true)
 }
 
